@@ -15,7 +15,8 @@ import registry
 #        conn_window, max_streams, chunk, read_size, blackhole_after_ms, blackhole_len_ms (0 = forever),
 #        n_uni, delay_ms, idle_ms, fault_until_ms, close_at_end, finish_mode,
 #        write_modes_mask (bit m: 0 send, 1 send_vectored, 2 tokio write_vectored, 3 write_all),
-#        read_modes_mask (0 receive, 1 read, 2 receive_vectored, 3 tokio read, 4 slow reader then receive_vectored),
+#        read_modes_mask (0 receive, 1 read, 2 receive_vectored, 3 tokio read, 4 slow reader then receive_vectored,
+#        5 tokio read_exact of 3000..20000 bytes on one ReadBuf),
 #        max_send_buffer_size (0 = default),
 #        max_data_drop_pm (datagrams that carry a MAX_DATA frame are dropped with this permille while faults are active)]
 # ---------------------------------------------------------------------------------------------
@@ -74,7 +75,7 @@ def _stream_case(rng, profile):
         # (finding reported by the e2e harness), harmless only while stream credit is not needed
         finish_mode = 1
     wmask = rng.choice([0, 0, 15, 15, 1, 2, 4, 8, 6])
-    rmask = rng.choice([0, 0, 31, 31, 1, 2, 4, 8, 16, 20])
+    rmask = rng.choice([0, 0, 63, 63, 1, 2, 4, 8, 16, 20, 32, 32, 40])
     send_buf = rng.choice([0, 0, 0, 1000, 3000, 20000])
     md_drop = 0
     if profile in ("lossy", "tiny") and rng.random() < 0.4:
@@ -116,6 +117,9 @@ def fixed_stream(tier):
         [12, 0, 0, 0, 0, 1500, 3, 40000, 200000, 400000, 10, 3000, 0, 0, 0, 0, 20, 30000, 0, 1, 0, 15, 16, 3000, 0],
         [13, 20, 0, 0, 10, 1500, 2, 100000, 1048576, 2097152, 10, 1200, 77, 0, 0, 2, 5, 30000, 5000, 0, 0, 6, 20, 1000, 0],
         [14, 0, 0, 0, 0, 1500, 4, 30000, 1048576, 2097152, 10, 40000, 13, 0, 0, 0, 50, 30000, 0, 1, 0, 4, 4, 0, 0],
+        # tokio read_exact over data that arrives in packet-sized pieces, with jitter
+        [15, 20, 0, 0, 20, 1500, 2, 100000, 200000, 400000, 10, 5000, 0, 0, 0, 1, 10, 30000, 5000, 1, 0, 0, 32, 0, 0],
+        [16, 0, 0, 0, 5, 1350, 3, 60000, 65536, 131072, 10, 1200, 0, 0, 0, 0, 20, 30000, 3000, 1, 0, 6, 32, 3000, 0],
         # every datagram that carries MAX_DATA is lost for the first seconds while the sender depends on it
         [21, 0, 0, 0, 0, 1500, 2, 60000, 20000, 30000, 10, 1000, 0, 0, 0, 0, 10, 30000, 3000, 1, 0, 0, 0, 0, 1000],
         [22, 20, 0, 0, 10, 1400, 3, 40000, 8000, 10000, 10, 3000, 500, 0, 0, 1, 20, 30000, 5000, 1, 0, 0, 0, 0, 1000],
@@ -126,7 +130,7 @@ def valid_stream(c):
     return (len(c) == STREAM_LEN and all(v >= 0 for v in c) and c[5] >= 1200 and c[6] <= 8 and c[15] <= 3
             and c[7] <= 200000 and c[1] <= 150 and c[17] >= 2000
             and (c[14] == 0 or c[14] <= 3000) and (c[20] == 0 or c[10] >= c[6] + c[15])
-            and (c[18] <= 100000) and c[7] <= 150 * min(c[8], c[9]) + 1 and c[21] <= 15 and c[22] <= 31 and c[24] <= 1000)
+            and (c[18] <= 100000) and c[7] <= 150 * min(c[8], c[9]) + 1 and c[21] <= 15 and c[22] <= 63 and c[24] <= 1000)
 
 
 def nontrivial_stream(case, out):
@@ -420,13 +424,21 @@ def hist_inject(cases, outs):
 # ---------------------------------------------------------------------------------------------
 # e2e_pn  (C08)
 # case: [seed, retry_first, drop_pm, dup_pm, jitter_ms, delay_ms, n_bidi, bytes, max_ack_delay_ms,
-#        fault_until_ms, cc, n_uni, corrupt_pm]
+#        fault_until_ms, cc, n_uni, corrupt_pm, server_max_ack_delay_ms (0 = same as the client's), pause_ms, chunk]
 # ---------------------------------------------------------------------------------------------
-PN_LEN = 13
+PN_LEN = 16
 
 
 def gen_pn(rng):
     seed = rng.randrange(1, 1 << 48)
+    if rng.random() < 0.35:
+        # sparse traffic, different max_ack_delay on the two sides (both orders): lone in-order
+        # packets arrive while the receiver has nothing to send, so its own ACK timer decides
+        small, large = rng.choice([5, 10, 25]), rng.choice([100, 250, 400])
+        mc, ms = (small, large) if rng.random() < 0.5 else (large, small)
+        return [seed, rng.choice([0, 0, 1]), rng.choice([0, 0, 20]), 0, rng.choice([0, 5]), rng.choice([5, 20, 50]),
+                rng.choice([1, 2]), rng.choice([2000, 6000]), mc, 2000, rng.choice([0, 0, 1]), rng.choice([0, 1]), 0,
+                ms, rng.choice([300, 700]), rng.choice([200, 500])]
     lossy = rng.random() < 0.7
     return [seed, rng.choice([0, 1, 1, 1, 2]),
             rng.choice([10, 50, 100, 200]) if lossy else 0,
@@ -436,39 +448,46 @@ def gen_pn(rng):
             rng.choice([1, 2, 4]), rng.choice([0, 2000, 30000, 100000, 200000]),
             rng.choice([0, 1, 5, 25, 100, 400]),
             rng.choice([1000, 5000, 20000]), rng.choice([0, 1]), rng.choice([0, 1, 2]),
-            rng.choice([0, 0, 20, 100]) if lossy else 0]
+            rng.choice([0, 0, 20, 100]) if lossy else 0,
+            rng.choice([0, 0, 5, 100]), 0, 0]
 
 
 def fixed_pn(tier):
     return [
-        [1, 1, 0, 0, 0, 20, 2, 20000, 0, 0, 0, 1, 0],        # one Retry, clean network
-        [2, 0, 0, 0, 0, 20, 2, 20000, 0, 0, 0, 1, 0],        # no Retry
-        [3, 2, 100, 100, 50, 50, 2, 100000, 5, 10000, 1, 1, 50],
-        [4, 1, 200, 300, 200, 5, 4, 200000, 100, 20000, 0, 2, 0],
+        [1, 1, 0, 0, 0, 20, 2, 20000, 0, 0, 0, 1, 0, 0, 0, 0],        # one Retry, clean network
+        [2, 0, 0, 0, 0, 20, 2, 20000, 0, 0, 0, 1, 0, 0, 0, 0],        # no Retry
+        [3, 2, 100, 100, 50, 50, 2, 100000, 5, 10000, 1, 1, 50, 0, 0, 0],
+        [4, 1, 200, 300, 200, 5, 4, 200000, 100, 20000, 0, 2, 0, 0, 0, 0],
+        # sparse one-way and ping-pong traffic, the two sides advertise different max_ack_delay
+        [5, 0, 0, 0, 0, 20, 1, 3000, 400, 0, 0, 1, 0, 10, 500, 300],
+        [6, 0, 0, 0, 0, 20, 1, 3000, 10, 0, 0, 1, 0, 250, 500, 300],
     ]
 
 
 def valid_pn(c):
-    return len(c) == PN_LEN and all(v >= 0 for v in c) and c[1] <= 2 and c[2] <= 200 and 1 <= c[6] <= 4 and c[7] <= 200000 and c[11] <= 2
+    return (len(c) == PN_LEN and all(v >= 0 for v in c) and c[1] <= 2 and c[2] <= 200 and 1 <= c[6] <= 4 and c[7] <= 200000
+            and c[11] <= 2 and c[14] <= 1000 and (c[14] == 0 or c[7] <= 20 * max(1, c[15])))
 
 
 def nontrivial_pn(case, out):
     return len(out) > 7 and out[2] == 1 and out[6] > 50
 
 
-def _pn_check(v, extra_us, evict=False):
+def _pn_check(v, extra_us, evict=False, hold=False):
     """python mirror of the e2e_pn monitor; extra_us(srtt, cwnd) is added to max_ack_delay + 5 ms.
     evict=True additionally (a) waives an obligation when the first ACK frame sent after it carries the
     maximum of 10 ranges, all above the packet number (RFC 9000 13.2.3: the receiver limits the
-    ranges it keeps; while ACKs are held back by the pacer the oldest range falls out) and (b) lets an
-    obligation run up to 2 s as long as the endpoint has sent no packet at all since it processed the
-    packet - the signature of transmission being held back as a whole (pacing), as opposed to
-    packets leaving without the ACK.
+    ranges it keeps; while ACKs are held back by the pacer the oldest range falls out).
+    hold=True (used for BBR only, whose pacing rate is not cwnd / srtt) lets an obligation run up to
+    2 s as long as the endpoint sent a packet within the 100 ms before it processed the packet and
+    has sent no packet at all since - the signature of the pacer holding back all transmission
+    right after a burst, as opposed to an idle endpoint that simply acknowledges late.
     returns (incr_ok, ranges_ok, timely_ok)"""
-    endt, mad = v[3], v[4]
-    rows = [v[7 + 8 * i:13 + 8 * i] for i in range(v[6])]
+    endt, mads = v[3], (v[4], v[7])
+    rows = [v[8 + 8 * i:14 + 8 * i] for i in range(v[6])]
     incr_ok = ranges_ok = timely_ok = True
     for ep in (0, 1):
+        mad = mads[ep]
         for sp in (0, 1, 2):
             last, proc = -1, set()
             for r in rows:
@@ -479,7 +498,7 @@ def _pn_check(v, extra_us, evict=False):
                     proc.add(r[3])
                 elif r[:3] == [2, ep, sp]:
                     ranges_ok &= r[3] <= r[4] and all(x in proc for x in range(r[3], r[4] + 1))
-        pend, largest, srtt, cwnd, closed = [], -1, 333000, 12000, False
+        pend, largest, srtt, cwnd, closed, last_send = [], -1, 333000, 12000, False, -10**9
         frame = []   # ranges of the ACK frame being read
         for r in rows:
             if frame and r[:3] != [2, ep, 2]:
@@ -487,15 +506,16 @@ def _pn_check(v, extra_us, evict=False):
                     lo = min(a for a, _ in frame)
                     pend = [q for q in pend if not q[0] < lo]
                 frame = []
-            if evict:
-                overdue = [q for q in pend if r[5] > q[1] and (q[2] or r[5] > q[3] + 2000000)]
+            if hold:
+                overdue = [q for q in pend if r[5] > q[1] and (q[2] or not q[4] or r[5] > q[3] + 2000000)]
             else:
                 overdue = [q for q in pend if r[5] > q[1]]
             if overdue:
                 timely_ok = False
                 pend = [q for q in pend if q not in overdue]
             if r[:2] == [0, ep]:
-                pend = [(q[0], q[1], True, q[3]) for q in pend]
+                pend = [(q[0], q[1], True, q[3], q[4]) for q in pend]
+                last_send = r[5]
             if r[0] == 4 and r[1] == ep:
                 closed = True
                 break
@@ -506,9 +526,9 @@ def _pn_check(v, extra_us, evict=False):
                 pend = [q for q in pend if not (r[3] <= q[0] <= r[4])]
             if r[:3] == [1, ep, 2]:
                 if r[4] == 1 and largest < r[3]:
-                    pend.append((r[3], r[5] + mad + 5000 + extra_us(srtt, cwnd), False, r[5]))
+                    pend.append((r[3], r[5] + mad + 5000 + extra_us(srtt, cwnd), False, r[5], r[5] - last_send <= 100000))
                 largest = max(largest, r[3])
-        if not closed and any(endt > q[1] and (not evict or q[2] or endt > q[3] + 2000000) for q in pend):
+        if not closed and any(endt > q[1] and (not hold or q[2] or not q[4] or endt > q[3] + 2000000) for q in pend):
             timely_ok = False
     return incr_ok, ranges_ok, timely_ok
 
@@ -528,7 +548,7 @@ def classify_pn(p):
         strict = _pn_check(v, lambda srtt, cwnd: 0)
         # the pacer's interval is MAX_BURST_PACKETS (10) datagrams at 1.25..2 x cwnd / srtt: up to
         # 10 * mds * srtt / cwnd; twice that (the values move while the packet waits), at least 50 ms
-        loose = _pn_check(v, lambda srtt, cwnd: max(50000, 2 * 15000 * srtt // cwnd), evict=True)
+        loose = _pn_check(v, lambda srtt, cwnd: max(50000, 2 * 15000 * srtt // cwnd), evict=True, hold=(len(c) > 10 and c[10] == 1))
         if strict[0] and strict[1] and not strict[2] and loose[2]:
             return "ack_only_packets_paced"
         return None
@@ -546,7 +566,7 @@ def hist_pn(cases, outs):
         h["connected"] += v[2]
         h["capped"] += v[5]
         h["rows"] += v[6]
-        h["ack_ranges"] += sum(1 for i in range(v[6]) if v[7 + 8 * i] == 2)
+        h["ack_ranges"] += sum(1 for i in range(v[6]) if v[8 + 8 * i] == 2)
     return h
 
 
